@@ -8,6 +8,7 @@ package main
 
 import (
 	"fmt"
+	"go/constant"
 	"go/token"
 	"go/types"
 	"sort"
@@ -1373,9 +1374,27 @@ func (e *Engine) foldCond(fc *FrameCtx, cond ssa.Value) (bool, bool) {
 		}
 		break
 	}
+	// a constant handed down through explored frames decides the branch
+	constOf := func(v ssa.Value) *ssa.Const {
+		av, _ := e.ArgValue(fc, v)
+		if k, ok := stripConv(av).(*ssa.Const); ok && k.Value != nil {
+			return k
+		}
+		return nil
+	}
+	if _, isBin := cond.(*ssa.BinOp); !isBin {
+		if k := constOf(cond); k != nil && isBoolConst(k) {
+			return true, (k.Value.ExactString() == "true") == pol
+		}
+		return false, false
+	}
 	b, ok := cond.(*ssa.BinOp)
 	if !ok || (b.Op != token.EQL && b.Op != token.NEQ) {
 		return false, false
+	}
+	if kx, ky := constOf(b.X), constOf(b.Y); kx != nil && ky != nil {
+		eq := constant.Compare(kx.Value, token.EQL, ky.Value)
+		return true, (eq == (b.Op == token.EQL)) == pol
 	}
 	isNil := func(v ssa.Value) bool { c, ok := v.(*ssa.Const); return ok && c.Value == nil && !isBasic(c.Type()) }
 	var other ssa.Value
